@@ -221,8 +221,8 @@ func Property(id string) runner.Property {
 		"C12": "oracle: every Close() returns, root Done() closes, no goroutine started by the library is left (exact: scheduler's goroutine table), no panic, every public call issued after Done() or racing with shutdown returns ErrNotRunning or an object that is itself shut down; shutdown from: not ready with the first list in flight or blocking, watch connecting (blocking until its context is cancelled), retry timer pending, relist in flight; triggers Close, 2 concurrent Close, Close twice, context cancel, fatal list error",
 	}
 	return runner.Property{
-		ID:    id,
-		Level: "model_checking",
+		ID:           id,
+		Level:        "model_checking",
 		QuickBudgetS: 240, ThoroughBudgetS: 3000,
 		Rule: "whole controller (real Builder.Create) against the scripted API server with a tree mixing Subscribe, SubscribeWithFilter, SubscribeForFilter, Clone, CloneWithFilter (nested), a monitor; every node as the one being closed x close points along the workload; every closing mechanism for the root; schedules within d deviations of the default (d=1 quick, 2 thorough); " + rule[id],
 		Assumptions: []string{
